@@ -41,11 +41,8 @@ def e1_replay(cfg, rec):
                        for p in cfg.props})
     pre = explore.StatePre(tracks, cfg)
     if ev[0] == "construct":
-        sigs = []
-        for p, lst in pre.bad.items():
-            for clause, detail in lst[:3]:
-                sigs.append(explore.mk_violation(p, clause, detail, w, seed, [], ev, "construct", "constructor", pre.info)["signature"])
-        return sorted(set(sigs))
+        r = explore.expand((cfg, rec["world"], rec["seed"], [], False))
+        return sorted({v["signature"] for v in r["violations"] if v["event"] == ["construct"]})
     r = explore.fire(cfg, w, seed, history, ev, tracks, pre)
     return sorted({v["signature"] for v in r["violations"]})
 
@@ -133,7 +130,8 @@ def check_c03(tier):
         dict(name="seg-bfs", worlds=["seg-2d"] if q else ["seg-2d", "seg-3d"], seeds=HAND_SEEDS, depth=1 if q else 2,
              kinds=("del_node", "del_edge", "add_edge", "add_node", "swap", "paint")),
     ]
-    return run_e1("C03", tier, stages, dict(undo_probe=True), time_budget=budget(tier, 100, 1500))
+    res = run_e1("C03", tier, stages, dict(undo_probe=True), time_budget=budget(tier, 100, 1500))
+    return with_history_invariants("C03", tier, res)
 
 
 STRUCT_KINDS = ("del_node", "del_edge", "add_edge", "add_node", "swap")
@@ -146,21 +144,35 @@ def struct_stages(tier, seg_depth_q=1, seg_depth_t=2, extra_kinds=()):
         dict(name="noseg-bfs", worlds=["noseg-2d"], seeds=HAND_SEEDS, depth=2 if q else 3, kinds=kinds),
         dict(name="noseg-given-bfs", worlds=["noseg-2d-given"], seeds=["div", "two", "desc"], depth=2 if q else 3, kinds=kinds),
         dict(name="forests", worlds=["noseg-2d-given"], seeds=forests_seeds(4 if q else 5, 3 if q else 4), depth=1, kinds=kinds),
+        # constructor clause: ids computed by the constructor on every forest
+        dict(name="forests-computed-ids", worlds=["noseg-2d"], seeds=forests_seeds(4 if q else 5, 3 if q else 4), depth=1,
+             kinds=("del_node", "del_edge") if q else kinds),
         dict(name="seg-bfs", worlds=["seg-2d"] if q else ["seg-2d", "seg-3d"], seeds=HAND_SEEDS,
              depth=seg_depth_q if q else seg_depth_t, kinds=kinds + ("paint",)),
     ]
 
 
+def with_history_invariants(prop, tier, res):
+    """E2: the state invariant of `prop` re-checked after every undo / redo of every call
+    sequence of the C02 menus (deep undo/redo interleavings that the BFS probe does not reach)"""
+    q = tier == "quick"
+    menus = [(M1, 4 if q else 6), (M1B, 4 if q else 5), (M2, 3 if q else 5)]
+    return merge_results(res, run_e2(prop, tier, "C02", menus, inv_props=(prop,), time_budget=budget(tier, 60, 900)))
+
+
 def check_c04(tier):
-    return run_e1("C04", tier, struct_stages(tier), dict(undo_probe=True), time_budget=budget(tier, 100, 1500))
+    res = run_e1("C04", tier, struct_stages(tier), dict(undo_probe=True), time_budget=budget(tier, 100, 1500))
+    return with_history_invariants("C04", tier, res)
 
 
 def check_c05(tier):
-    return run_e1("C05", tier, struct_stages(tier), dict(undo_probe=True), time_budget=budget(tier, 100, 1500))
+    res = run_e1("C05", tier, struct_stages(tier), dict(undo_probe=True), time_budget=budget(tier, 100, 1500))
+    return with_history_invariants("C05", tier, res)
 
 
 def check_c06(tier):
-    return run_e1("C06", tier, struct_stages(tier), dict(undo_probe=True), time_budget=budget(tier, 100, 1500))
+    res = run_e1("C06", tier, struct_stages(tier), dict(undo_probe=True), time_budget=budget(tier, 100, 1500))
+    return with_history_invariants("C06", tier, res)
 
 
 def check_c11(tier):
@@ -192,8 +204,10 @@ def check_c01(tier):
         dict(name="noseg-configs", worlds=["noseg-2d-axes", "noseg-3d", "noseg-2d-fd"], seeds=HAND_SEEDS, depth=1 if q else 2, kinds=kinds),
         dict(name="forests", worlds=["noseg-2d"], seeds=forests_seeds(4 if q else 5, 3 if q else 4), depth=1, kinds=kinds),
         dict(name="seg-bfs", worlds=["seg-2d", "seg-2d-aniso"] if q else ["seg-2d", "seg-2d-aniso", "seg-2d-all", "seg-3d", "seg-3d-aniso", "seg-2d-fd"],
-             seeds=HAND_SEEDS, depth=1 if q else 2, kinds=kinds + ("paint",)),
+             seeds=HAND_SEEDS + ["twodiv"], depth=1 if q else 2, kinds=kinds + ("paint",)),
     ]
+    if q:
+        stages.append(dict(name="seg-3d", worlds=["seg-3d-aniso"], seeds=["div", "skip", "two"], depth=1, kinds=kinds + ("paint",)))
     return run_e1("C01", tier, stages, dict(undo_probe=True), time_budget=budget(tier, 100, 1500))
 
 
